@@ -69,6 +69,7 @@ type plan struct {
 	fbRet   int // 0: returns its argument, 1: its own error, 2: nil
 	fbDur   time.Duration
 	think   think
+	kind    int // identity of the request's error / of its panic value (values_test.go); 0: the plain one
 	// second layer (layer2_test.go)
 	l2      bool
 	ident   int // which of the run's breaker identities
@@ -95,6 +96,7 @@ type phase struct {
 	ident      int  // identity whose history the phase builds
 	panicsOnly bool // REST sustained phase: every handler panics
 	variant    int  // sustained phase: the one failure kind of the phase
+	valKind    int  // ... and the one error identity / panic value of the phase
 	outage     bool // sqlx sustained phase: the failure kind is "the database is unreachable"
 }
 
@@ -209,6 +211,7 @@ func drawPlan(t *simrt.Tape, failPct, profile int, registry, timed bool) plan {
 	} else if t.Intn(4) == 3 {
 		p.outcome = outAccErr // a failure for the entry points without a predicate
 	}
+	p.kind = t.Intn(nKinds)
 	if timed {
 		switch v := t.Intn(8); {
 		case v < 5:
